@@ -346,3 +346,20 @@ def fresh_randomness(ctx):
     copy of it, which would make two recaps calls return the same secret and encapsulation (C16.rng-threading)."""
     from . import c16
     c16.rng_threading(ctx)
+
+
+@rule('C18', 'chain-orientation')
+def chain_orientation(ctx):
+    """'re-encapsulates for exactly the rights still activated': the activation status update_msk writes (get_latest_mut) is the
+    one full_decaps and mpk() read (front of the chain): both ends of the accessor pair agree (C04.orientation)."""
+    from . import c04
+    c04.orientation(ctx)
+
+
+@rule('C18', 'selection', configs=('default', 'p256'))
+def selection(ctx):
+    """'re-encapsulation ... succeeds': recaps hands the recovered rights to encaps, whose classic / hybridized decision must be
+    "all sub-keys hybridized" whatever the order of the set (C11.selection) — a last-key-wins flag makes re-encapsulation of a
+    mixed audience fail depending on hash-set order."""
+    from . import c11
+    c11.selection(ctx)
